@@ -154,6 +154,15 @@ func (r *runner) observe(cases []*bcase, idx []int, res []obs) {
 	}
 	var lines [][2]int
 	src := packSource(sub, &lines)
+	if d := os.Getenv("VERIF_C18_DUMP"); d != "" {
+		r.mu.Lock()
+		n := r.programs
+		r.mu.Unlock()
+		if n < 400 {
+			os.MkdirAll(d, 0o755)
+			os.WriteFile(fmt.Sprintf("%s/%s_%d_%d.fer", d, r.target, len(idx), n), []byte(src), 0o644)
+		}
+	}
 	b, dir, attr, msg := r.compile(src, lines)
 	defer os.RemoveAll(dir)
 	if attr != nil {
@@ -289,8 +298,9 @@ func runTarget(c *vl.Ctx, rn *run.Runner, target string, cases []*bcase, packSiz
 	sort.SliceStable(order, func(a, b int) bool { return cls(cases[order[a]]) < cls(cases[order[b]]) })
 	var packs [][]int
 	for i := 0; i < len(order); {
-		j := i
-		for j < len(order) && j-i < packSize && cls(cases[order[j]]) == cls(cases[order[i]]) {
+		j, sz := i, 0
+		for j < len(order) && (j == i || sz+cases[order[j]].size() <= packSize) && cls(cases[order[j]]) == cls(cases[order[i]]) {
+			sz += cases[order[j]].size()
 			j++
 		}
 		packs = append(packs, order[i:j])
